@@ -1253,6 +1253,12 @@ class ThirdCoreHexToFullCoreChanger(GeometryChanger):
     def __init__(self, cs=None):
         GeometryChanger.__init__(self, cs)
         self.listOfVolIntegratedParamsToScale = []
+        self._converted = False
+
+    def reset(self):
+        """Forget the conversion this changer has made."""
+        self._converted = False
+        super().reset()
 
     def _scaleBlockVolIntegratedParams(self, b, direction):
         if direction == "up":
@@ -1326,6 +1332,7 @@ class ThirdCoreHexToFullCoreChanger(GeometryChanger):
         self._sourceReactor.core.symmetry = geometry.SymmetryType(
             geometry.DomainType.FULL_CORE, geometry.BoundaryType.NO_SYMMETRY
         )
+        self._converted = True
 
         for a in self._sourceReactor.core.getAssemblies():
             # make extras and add them too. since the input is assumed to be 1/3 core.
@@ -1387,8 +1394,9 @@ class ThirdCoreHexToFullCoreChanger(GeometryChanger):
         """
         r = r or self._sourceReactor
 
-        # remove the assemblies that were added when the conversion happened.
-        if bool(self._newAssembliesAdded):
+        # remove the assemblies that were added when the conversion happened. A conversion that
+        # added no assembly (e.g. a core holding only the central assembly) is undone as well.
+        if self._converted:
             for a in self._newAssembliesAdded:
                 r.core.removeAssembly(a, discharge=False)
 
